@@ -355,8 +355,8 @@ class C11(fw.Property):
     coq_props = "Props/C11.v"
     gen_jobs = ["options_ext", "oscore_replay", "oscore_consts"]
     model_imports = ["Verif.Gen.oscore_replay", "Verif.Model.C11"]
-    quick_budget = 400
-    thorough_budget = 6000
+    quick_budget = 340
+    thorough_budget = 5000
     design_ref = "DESIGN.md section 16"
     technique = ("Coq proofs over an executable model of protect/unprotect parametrised by an ideal AEAD (round trip, non-interference of the outer message, "
                  "binding of responses, tamper detection, error totality), constants/option-field codec/replay window regenerated from source; "
